@@ -75,6 +75,20 @@ CHECKS = {
         note="Trusted: numpy eigvalsh. primme absent (direct + davidson only). Dense dimension <= 512.",
         technique="property-based testing (Hypothesis) against an exact-diagonalisation oracle (variational bound, interlacing)",
     ),
+    "C09": dict(
+        category="exploration",
+        text="Generated (model, Hermitian Hamiltonian, initial state, step over two decades, scheme/options) cases in eight modes: "
+             "TDVP-PS / PS2 / VMF / MU-VMF (all solvers and options, calls split arbitrarily) vs dense exp(-iHt) at full bond dimension; "
+             "Taylor P&C of order 1-6, RK4 P&C and general-RK P&C with every tableau vs the exact algebraic replica (stability "
+             "polynomial by stage recursion), also for time-dependent Hamiltonian callables vs a dense RK stepper with the same "
+             "tableau; CMF variants vs the exact state within the scheme's error bound; krylov vs RK45 vs RK23; adaptive stepping "
+             "within the controller's tolerance; norm/energy conservation of one-site PS at small bond; bond limit for every scheme; "
+             "input state unchanged.",
+        design_ref="DESIGN.md §4 C09",
+        note="Trusted: numpy eigh-based exp(-iHt). ||H||=1 by scaling, ||H||dt in [0.03,3], dense dimension <= 128. CMF is only bounded "
+             "(its inner sites use scipy's default rtol 1e-3 inside the library).",
+        technique="property-based testing (Hypothesis) with dense-propagator oracle, exact algebraic replicas and differential (solver vs solver) relations",
+    ),
     "C16": dict(
         category="exploration",
         text="Every basis class x every supported symbol x generated sizes/frequencies/origins/grids (a completely enumerated grid "
@@ -97,6 +111,18 @@ CHECKS = {
         design_ref="DESIGN.md §4 C18",
         note="Trusted: numpy/LAPACK eigh and svd. Krylov dimension <= 60 (quick) / 300 (thorough).",
         technique="property-based testing (Hypothesis) with dense linear-algebra oracles (differential vs numpy/scipy)",
+    ),
+    "C20": dict(
+        category="exploration",
+        text="Complete enumeration of all bipartite graphs with >=1 edge on every |U|x|V| grid up to 4x4 (quick) / 5x4 (thorough), both "
+             "algorithms, both neighbour orders, against the minimum cover by definition (min over subsets on bit masks) and an "
+             "independent augmenting-path maximum matching (Koenig); Hypothesis-generated random graphs up to 40x40 in eleven styles; "
+             "generated term tables: Mpo.bond_dims at every cut equals the minimum vertex cover of the harness-built prefix/suffix "
+             "incidence graph and never exceeds the number of distinct prefixes/suffixes; a spy applies the cover test to every graph "
+             "the builder submits.",
+        design_ref="DESIGN.md §4 C20",
+        note="Trusted: harness bit-mask minimum cover and BFS matching (cross-validated on every enumerated graph). The finite part is exhaustive.",
+        technique="exhaustive enumeration + property-based testing (Hypothesis) against an independent matching/cover oracle (Koenig's theorem)",
     ),
     "C19": dict(
         category="exploration",
